@@ -28,6 +28,8 @@ def plan(tier, seed):
             conds.append(Cond("p4-mutate-%d-%03d_%03d" % (i, lo, hi), "harness/c02.py", "p4",
                               env={"P4_SCRIPT": i, "P4_LO": lo, "P4_HI": hi}, timeout=600))
     conds.append(Cond("p3-vacuity", "harness/c02.py", "p3", timeout=60, vacuity=True))
+    conds += t4_conds("c02", timeout=280 if q else 1500, quick=q)
+    bounds["T4"] = T4_BOUND
     conds += twins("c02")[:1]
     bounds["P3"] = "0-8 two-byte characters in 4 kinds of leading text x LF/CRLF x %d erroneous tails x 3 trailers" % H.NT
     bounds["P4"] = "%d valid scripts x every byte position x {replace, insert} by one of %d bytes, and truncation at every position" % (H.NC, H.NM)
